@@ -11,7 +11,7 @@ from mc.core import ChunkResult
 PROPERTY = 'C11'
 LEVEL = 'model_checking'
 ENGINE = 'E4'
-TECHNIQUE = ('explicit-state breadth-first search over directory-tree states: every subset of a 7-entry menu as initial '
+TECHNIQUE = ('explicit-state breadth-first search over directory-tree states: every subset of an 8-entry menu as initial '
              'state, every CLI mode/option combination as a transition executed by the real main() on a real directory, '
              'states deduplicated on their recursive snapshot, depth 2 (quick) / 3 (thorough); each transition checked '
              'against a dict reference model of the allowed effect; subprocess replays of a fixed subset')
@@ -23,7 +23,7 @@ LEVEL_TEXT = ('A state is the full recursive snapshot (path, type, size, hash) o
               'top-level regular files for -D, plus only <file>.<entry id>.json in the output directory for -j.')
 LEVEL_NOTE = 'trees beyond the 7-entry menu, symlinks and special files are not explored; --clean ordering is C12'
 RULE = ('initial states = all subsets of {T1_50000001, T2_50000002, T3_50000002.bak, other.txt, archive/T4_50000004, '
-        'archive/T5_50000001, 50000001/ (directory)}; transitions = 38 command templates; BFS to depth 2 (quick) or 3 '
+        'archive/T5_50000001, 50000001/ (directory), T6_00500A07 (id with leading zeros)}; transitions = 38 command templates; BFS to depth 2 (quick) or 3 '
         '(thorough) with snapshot deduplication. Non-trivial: transition whose model effect is not the identity, or any '
         'transition from a non-initial state; distinct by (state, command).')
 ASSUMPTIONS = ['which of several files containing the id --delete removes is not fixed']
@@ -32,9 +32,11 @@ P1 = pelgen.encode_pel(pelgen.pel_from_spec({'eid': 0x50000001, 'plid': 0x500000
 P2 = pelgen.encode_pel(pelgen.pel_from_spec({'eid': 0x50000002, 'plid': 0x50000002, 'obmc': 2, 'sections': [{'t': 'PS'}, {'t': 'MT'}]}))
 P4 = pelgen.encode_pel(pelgen.pel_from_spec({'eid': 0x50000004, 'plid': 0x50000004, 'obmc': 4, 'sections': [{'t': 'PS'}]}))
 P5 = pelgen.encode_pel(pelgen.pel_from_spec({'eid': 0x50000001, 'plid': 0x50000005, 'obmc': 5, 'uh': {'flags': 0x6000}, 'sections': [{'t': 'PS'}]}))
-EID_OF = {P1: '50000001', P2: '50000002', P4: '50000004', P5: '50000001'}
+P6 = pelgen.encode_pel(pelgen.pel_from_spec({'eid': 0x00500A07, 'plid': 0x00000A07, 'obmc': 6, 'sections': [{'t': 'PS'}]}))
+EID_OF = {P1: '50000001', P2: '50000002', P4: '50000004', P5: '50000001', P6: '00500A07'}
 MENU = [('pels/T1_50000001', P1), ('pels/T2_50000002', P2), ('pels/T3_50000002.bak', P2), ('pels/other.txt', b'not a pel\n'),
-        ('pels/archive/T4_50000004', P4), ('pels/archive/T5_50000001', P5), ('pels/50000001/inner_50000001', P1)]
+        ('pels/archive/T4_50000004', P4), ('pels/archive/T5_50000001', P5), ('pels/50000001/inner_50000001', P1),
+        ('pels/T6_00500A07', P6)]
 FIXED = {'pels': None, 'out': None, 'sibling_50000001.txt': b'outside the pel directory\n', 'exclude.txt': b'BD8D9999\n'}
 
 COMMANDS = [
@@ -43,18 +45,18 @@ COMMANDS = [
     ['--bmc-id', '1'], ['--bmc-id', '77'], ['--plid', '50000001'], ['--src', 'BD8D'], ['--src-exclude', '@exclude.txt'],
     ['-f', '@pels/T1_50000001'], ['-f', '@pels/T1_50000001', '-x'], ['-f', '@pels/other.txt'], ['-f', '@pels/archive/T4_50000004'],
     ['-j'], ['-j', '-o', '@out'], ['-j', '-e', '.bak', '-o', '@out'], ['-j', '-E', '-o', '@out'], ['-j', '-E'],
-    ['-d', '50000001'], ['-d', '0x50000002'], ['-d', '50000003'], ['-d', '50000004'], ['-d', '5000000'], ['-d', '50000002', '-e', '.bak'],
+    ['-d', '50000001'], ['-d', '0x50000002'], ['-d', '50000003'], ['-d', '50000004'], ['-d', '00500a07'], ['-i', '0x00500A07'], ['-d', '5000000'], ['-d', '50000002', '-e', '.bak'],
     ['-D'], ['-D', '-e', '.bak'], ['-j', '-c', '-E', '-o', '@out'], ['-f', '@pels/T2_50000002', '-c'], ['-l', '-P'],
 ]
 
 
 def bounds(tier):
-    return {'initial_states': 128, 'commands': len(COMMANDS), 'depth': 2 if tier == 'quick' else 3,
+    return {'initial_states': 256, 'commands': len(COMMANDS), 'depth': 2 if tier == 'quick' else 3,
             'listing_orders_for_delete': ['sorted', 'reversed']}
 
 
 def plan(tier, seed):
-    ch = [{'k': 'bfs', 'mask': m, 'depth': 2 if tier == 'quick' else 3} for m in range(128)]
+    ch = [{'k': 'bfs', 'mask': m, 'depth': 2 if tier == 'quick' else 3} for m in range(256)]
     ch.append({'k': 'subproc'})
     return ch
 
@@ -190,7 +192,7 @@ def eval_case(case):
     r, after = run_cmd(tree, cmd, case['order'])
     probs = model(tree, rel_cmd(cmd), after, r.stdout)
     return [{'key': 'C11:' + k, 'what': '%s (after %s from initial subset %s)' % (t, [COMMANDS[s[0]] for s in case['path']],
-             [MENU[i][0] for i in range(7) if case['mask'] >> i & 1]), 'case': case} for k, t in probs]
+             [MENU[i][0] for i in range(len(MENU)) if case['mask'] >> i & 1]), 'case': case} for k, t in probs]
 
 
 def run_chunk(chunk):
@@ -215,11 +217,11 @@ def run_chunk(chunk):
                 effect = canon(after) != canon(tree)
                 res.case(nontrivial_key=json.dumps(case) if (effect or path) else None,
                          outcome='bad:' + probs[0][0] if probs else ('changed:' if effect else 'same:') + cmd[0],
-                         sample={'initial': [MENU[i][0] for i in range(7) if mask >> i & 1], 'path': [COMMANDS[s[0]] for s in path],
+                         sample={'initial': [MENU[i][0] for i in range(len(MENU)) if mask >> i & 1], 'path': [COMMANDS[s[0]] for s in path],
                                  'cmd': cmd, 'effect': effect} if trans % 150 == 1 else None)
                 for k, t in probs:
                     res.violation('C11:' + k, '%s (state: subset %s after %s)' % (
-                        t, [MENU[i][0] for i in range(7) if mask >> i & 1], [COMMANDS[s[0]] for s in path]), case)
+                        t, [MENU[i][0] for i in range(len(MENU)) if mask >> i & 1], [COMMANDS[s[0]] for s in path]), case)
                 key = canon(after)
                 if key not in seen and len(path) + 1 < chunk['depth']:
                     seen[key] = path + [[ci, order]]
@@ -239,7 +241,7 @@ def finish(tier, seed, agg):
 def _subproc(res):
     n_ok = 0
     trans = 0
-    tree = initial_tree(127)
+    tree = initial_tree(255)
     for cmd in (['-l'], ['-d', '50000001'], ['-d', '50000003'], ['-D'], ['-j', '-o', '@out'], ['-j'], ['-i', '50000004'],
                 ['-f', '@pels/T1_50000001'], ['-n', '-E'], ['-d', '5000000']):
         root = tempfile.mkdtemp(prefix='c11s_', dir=clidrv.scratch_root())
